@@ -355,11 +355,15 @@ def r6(fx):
              want='pattern 2 chosen automatically and pattern 2 requested: masked with the same predicate over the same encoding region')
 
 
-@rule('C15', 'R7', 3, 're-encoding with the automatically chosen mask requested explicitly reproduces the symbol; a requested mask is applied with the patterns of the symbol kind (C06.R10)')
+@rule('C15', 'R7', 3, 're-encoding with the automatically chosen mask requested explicitly reproduces the symbol; a requested mask is applied with the patterns of the symbol kind (C06.R10); with boosting disabled the level is passed through (C05.R5)')
 def r7(fx):
-    from . import p06
+    from . import p06, p05
     for o in p06.assembled_symbols(fx):
         if 'reproduces the symbol' in o.key or 'M4' in o.key or 'version 1-' in o.key:
+            yield o
+    # ... and with boosting disabled the level handed on is the level given (none for M1): the reported level can be requested again
+    for o in p05.r5(fx):
+        if 'boost=False' in o.key:
             yield o
 
 
